@@ -1900,10 +1900,12 @@ class Processor:
             elif isinstance(data, (CommentedSeq, list)):
                 for idx, ele in enumerate(data):
                     next_translated_path = translated_path + "[{}]".format(idx)
+                    next_ancestry = ancestry + [(data, idx)]
                     for node_coord in self._get_nodes_by_traversal(
                         ele, yaml_path, segment_index,
                         parent=data, parentref=idx,
-                        translated_path=next_translated_path
+                        translated_path=next_translated_path,
+                        ancestry=next_ancestry
                     ):
                         self.logger.debug(
                             "Yielding unfiltered Array value:",
